@@ -4,6 +4,7 @@
  * for every algorithm selector, element sizes 1, 4 (fast paths) and 12 (memcpy path).
  * rand() is scripted: the first two pivot draws take every value, later draws are 0.
  */
+#define VF_REALLOC_FULLCOPY
 #include "vf.h"
 #include <stdlib.h>
 #include <sys/types.h>
